@@ -502,6 +502,65 @@ pub fn history_case<F: MonF>(cx: &mut Cx, idx: u64, seed: u64) {
         }
         return;
     }
+    // now and then on a thread that has never transformed anything: first a transformer of the OTHER precision grows its
+    // tables (whatever the crate shares between transformers of a thread - twiddles, scratch - is then of the other
+    // precision's making), then products at the edge of the envelope in this precision, each on a fresh and on a
+    // long-lived object
+    if class == 3 && (idx / 8) % 10 == 5 {
+        cx.rep.inc("histories_after_the_other_precision_on_a_fresh_thread");
+        let warm_log = rng.range_usize(7, 14);
+        let seed2 = rng.next_u64();
+        let joined = std::thread::scope(|sc| {
+            let h = sc.spawn(|| common::catch(|| {
+                let mut rng = Rng::new(seed2);
+                let wa: Vec<i32> = (0..(1usize << warm_log) / 2).map(|i| (i % 7) as i32 - 3).collect();
+                match p {
+                    Prec::F64 => {
+                        let mut o = common::lib!(FFT::<f32>::new());
+                        let _ = common::lib!(o.multiply(&wa, &wa));
+                    }
+                    Prec::F32 => {
+                        let mut o = common::lib!(FFT::<f64>::new());
+                        let _ = common::lib!(o.multiply(&wa, &wa));
+                    }
+                }
+                cx.history.push(format!("(fresh thread) the other precision multiplied two vectors of {} elements first", wa.len()));
+                let mut lived = call!(cx, "new", FFT::<F>::new());
+                for step in 0..8 {
+                    let scale = [40usize, 150, 600, 2500, 9000][rng.usize_below(5)];
+                    let pr = match random_pair(cx, &mut rng, scale) {
+                        Some(pr) => pr,
+                        None => continue,
+                    };
+                    let want = oracle::conv(&pr.a, &pr.b);
+                    let gl = call!(cx, "multiply", lived.multiply(&pr.a, &pr.b));
+                    let gf = {
+                        let mut f = call!(cx, "new", FFT::<F>::new());
+                        call!(cx, "multiply", f.multiply(&pr.a, &pr.b))
+                    };
+                    judge(cx, "multiply after a transformer of the other precision was used on this thread", &pr, &gf, &want, None);
+                    lived_vs_fresh(cx, "multiply", &pr, &gl, &gf, &want);
+                    cx.history.push(format!("step {}: multiply {}x{}", step, pr.a.len(), pr.b.len()));
+                }
+            }));
+            h.join()
+        });
+        {
+            match joined {
+                Ok(Ok(())) => {}
+                Ok(Err(p)) => {
+                    if p.in_lib {
+                        let d = Json::obj().set("what", "the library panicked on a lawful input inside the envelope (fresh thread, other precision used first)").set("panic", p.msg.as_str()).set("at", format!("{}:{}", p.file, p.line));
+                        cx.violation("panic:multiply".to_string(), d);
+                    } else {
+                        cx.rep.inconclusive(format!("harness panic at {}:{}: {}", p.file, p.line, p.msg));
+                    }
+                }
+                Err(e) => std::panic::resume_unwind(e),
+            }
+        }
+        return;
+    }
     let long = class == 1 && (idx / 8) % 16 == 1;
     let steps = if long {
         rng.range_usize(65_540, 65_700)
